@@ -30,7 +30,7 @@ def q(name):
 QUICK = [
     fam("ops1", q("ops1")), fam("nums", q("nums")), fam("data", q("data")), fam("select", q("select")),
     fam("call", q("call")), fam("foppre", q("foppre")), fam("misc", q("misc")), fam("cast", q("cast")), fam("castdot", q("castdot")),
-    fam("moddef", q("moddef")), fam("dotuse", q("dotuse")), fam("conlet", q("conlet")), fam("funcbody", q("funcbody")), fam("funcsel", q("funcsel")), fam("cmpdata", q("cmpdata")), fam("moduse", q("moduse")), fam("copyparam", q("copyparam")), fam("funcshadow", q("funcshadow")), fam("sim", q("sim"), (2500, 70)),
+    fam("moddef", q("moddef")), fam("dotuse", q("dotuse")), fam("conlet", q("conlet")), fam("funcbody", q("funcbody")), fam("funcsel", q("funcsel")), fam("cmpdata", q("cmpdata")), fam("moduse", q("moduse")), fam("copyparam", q("copyparam")), fam("shadowuse", q("shadowuse")), fam("funcshadow", q("funcshadow")), fam("sim", q("sim"), (2500, 70)),
 ]
 THOROUGH = QUICK[:-1] + [fam("sim", q("sim"), (60000, 80))]
 
